@@ -40,6 +40,8 @@ def run(ctx):
     ctx.assumptions += [
         "group = prime-order module over its scalar field; curve arithmetic (arkworks) and SHA3 are not modelled",
         "rejection of altered transfers is relative to soundness of the sigma/range proofs (C07/C11) - exercised, not proved",
+        "BSGS: multiples x*h, x below the table range, are pairwise distinct and to_bytes is canonical (Section hypotheses h_inj, geqb_spec)",
+        "transfer_complete: the range-proof challenges are inputs shared by prover and verifier (C11's transcript tie), y and u_j invertible",
         "harness build uses overflow-checks=on (checked model); the wrapping build is covered by chunks_roundtrip_release",
     ]
     ok, info = c.coq_prove(ctx)
@@ -47,6 +49,11 @@ def run(ctx):
     if not ok:
         proof_broken = info
         ctx.log("proof obligations broken:", info["failed_file"])
+
+    okm, outm = c.coq_build(ctx, ["Crypto/ElGamalInst.vo", "Crypto/ValueChunks.vo", "Crypto/BsgsExec.vo", "Crypto/EncTransferExec.vo"])
+    if not okm:
+        ctx.violation({"layer": "Coq model build", "output": outm[-1500:]}, "executable model files no longer build", no_input=True)
+        return
 
     ok, binp = c.cargo_build(ctx, "c12")
     if not ok:
@@ -99,11 +106,163 @@ def run(ctx):
     ctx.notes["chunk_distribution"] = dist
     ctx.cov["samples"] += [json.dumps(x)[:300] for x in cases[13:16]]
 
+
+    # ---- value_to_chunks / chunks_to_value on multi-limb scalars (theorems value_chunks_roundtrip, chunks_to_value_no_overflow)
+    nv = 150 if ctx.quick else 6000
+    rc, out = c.run_bin(binp, ["vchunks", ctx.seed, nv], timeout=900)
+    if rc != 0:
+        ctx.violation({"layer": "harness run", "output": out[-2000:]}, "vchunks harness crashed", no_input=True)
+        return
+    vcases = [json.loads(l) for l in out.splitlines() if l.startswith("{")]
+    vskip = [v for v in vcases if v["k"] == "vskip"]
+    vcases = [v for v in vcases if v["k"] in ("vto", "vfrom")]
+    R = 0x73eda753299d7d483339d80809a1d80553bda402fffe5bfeffffffff00000001
+    for v in vskip:
+        if int(v["x"], 16) < R:
+            ctx.violation({"case": v}, "a scalar below the field order was refused by deserialisation")
+    vex = []
+    for v in vcases:
+        if v["k"] == "vto":
+            vex.append("value_to_chunks_checked r_bls_N 4 %s %s" % (N(v["s"]), N(int(v["x"], 16))))
+        else:
+            vex.append("chunks_to_value_checked r_bls_N %s %s" % (N(v["s"]), lst([int(x, 16) for x in v["xs"]])))
+    vterms = c.coq_eval(ctx, "vchunks", "From Coq Require Import NArith List. Import ListNotations.\n"
+                        "From CB Require Import Crypto.Chunks Crypto.ValueChunks.", vex, shard=40)
+    vdist = {"vto": 0, "vfrom": 0, "panic": 0, "roundtrips": 0, "skipped_not_scalar": len(vskip)}
+    vm = 0
+    enc = {}
+    for v, t in zip(vcases, vterms):
+        vdist[v["k"]] += 1
+        if v["k"] == "vto":
+            impl = "PANIC" if v["r"] == "PANIC" else [int(x, 16) for x in v["r"]]
+            if impl != "PANIC":
+                enc[(v["s"], tuple(impl))] = int(v["x"], 16)
+        else:
+            impl = "PANIC" if v["r"] == "PANIC" else int(v["r"], 16)
+        model = "PANIC" if t == "None" else t[1]
+        key = c.digest([v["k"], v["s"], v.get("x"), v.get("xs")])
+        seen.add(key)
+        if impl == "PANIC":
+            vdist["panic"] += 1
+        else:
+            nontrivial.add(key)
+        if model != impl:
+            vm += 1
+            if vm <= 5:
+                ctx.violation({"case": v, "model": str(model)[:400], "impl": str(impl)[:400],
+                               "theorem": "value_chunks_roundtrip / chunks_to_value_no_overflow (model proved, impl disagrees)"},
+                              "value chunking: implementation disagrees with the proved model (size %s)" % v["s"])
+    # direct round-trip oracle on the implementation alone
+    for v in vcases:
+        if v["k"] == "vfrom" and v["r"] != "PANIC":
+            x = enc.get((v["s"], tuple(int(a, 16) for a in v["xs"])))
+            if x is not None:
+                vdist["roundtrips"] += 1
+                if int(v["r"], 16) != x:
+                    ctx.violation({"case": v, "expected": "%x" % x}, "chunks_to_value(value_to_chunks(x)) != x (size %s)" % v["s"])
+    ctx.cov["evaluations"] += len(vcases)
+    ctx.cov["traces_validated_against_impl"] += len(vcases)
+    ctx.notes["value_chunk_distribution"] = vdist
+    ctx.cov["samples"] += [json.dumps(x)[:300] for x in vcases[40:42]]
+
+    # ---- BabyStepGiantStep (theorem bsgs_discrete_log / bsgs_giant_steps_exact)
+    nb = 40 if ctx.quick else 400
+    rc, out = c.run_bin(binp, ["bsgs", ctx.seed, nb], timeout=1800)
+    bcases = [json.loads(l) for l in out.splitlines() if l.startswith("{")]
+    if rc != 0 or not bcases:
+        ctx.violation({"layer": "harness run", "output": out[-2000:]}, "bsgs harness crashed", no_input=True)
+        return
+    big = [b for b in bcases if b["m"] == 65536]
+    keep = [b for b in bcases if b["m"] != 65536] + (big[:8] if ctx.quick else big)
+    bex = []
+    for b in keep:
+        bex.append("bsgs_case %s %s" % (N(b["m"]), N(b["x"])))
+        bex.append("bsgs_case_short %s %s" % (N(b["m"]), N(b["x"])))
+    bterms = c.coq_eval(ctx, "bsgs", "From Coq Require Import NArith.\nFrom CB Require Import Crypto.Bsgs Crypto.BsgsExec.", bex, shard=8)
+    bdist = {}
+    for i, b in enumerate(keep):
+        bdist[str(b["m"])] = bdist.get(str(b["m"]), 0) + 1
+        t, tshort = bterms[2 * i], bterms[2 * i + 1]
+        model = str(t[1]) if isinstance(t, tuple) and t[0].endswith("DlFound") else "PANIC"
+        key = c.digest(["bsgs", b["m"], b["x"]]); seen.add(key); nontrivial.add(key)
+        if b["r"] != b["x"]:
+            ctx.violation({"case": b}, "BabyStepGiantStep::discrete_log(%s*h) = %s with table size %s" % (b["x"], b["r"], b["m"]))
+        elif model != b["r"] or (b.get("full") not in (None, b["r"])):
+            ctx.violation({"case": b, "model": str(t)}, "BabyStepGiantStep: implementation disagrees with the proved model (m=%s x=%s)" % (b["m"], b["x"]))
+        want_short = "DlFuel"
+        if not (isinstance(tshort, str) and tshort.endswith(want_short)):
+            ctx.violation({"case": b, "model_short": str(tshort), "theorem": "bsgs_giant_steps_exact"},
+                          "model: discrete_log returned with fewer than x/m + 1 giant steps", no_input=True)
+    # the cases not evaluated in the model are still checked by the direct oracle
+    for b in bcases:
+        if b["r"] != b["x"]:
+            ctx.violation({"case": b}, "BabyStepGiantStep::discrete_log(%s*h) = %s with table size %s" % (b["x"], b["r"], b["m"]))
+    ctx.cov["evaluations"] += len(bcases)
+    ctx.cov["traces_validated_against_impl"] += len(keep)
+    ctx.notes["bsgs_distribution"] = {"by_table_size_model_checked": bdist, "impl_cases": len(bcases)}
+    ctx.cov["samples"].append(json.dumps(keep[-1]))
+
+    # ---- aggregate + decrypt_amount with chunk carries (theorem aggregate_decrypt_amount_with_bsgs), larger table
+    na = 14 if ctx.quick else 120
+    rc, out = c.run_bin(binp, ["aggcarry", ctx.seed, na, 18 if ctx.quick else 20], timeout=3000)
+    acases = [json.loads(l) for l in out.splitlines() if l.startswith("{")]
+    if rc != 0 or len(acases) < na:
+        ctx.violation({"layer": "harness run", "output": out[-2000:]}, "aggcarry harness crashed", no_input=True)
+        return
+    aterms = c.coq_eval(ctx, "aggcarry", "From Coq Require Import NArith List. Import ListNotations.\nFrom CB Require Import Crypto.Chunks.",
+                        ["chunks_to_u64_checked 32%%N %s" % lst([a["lo"], a["hi"]]) for a in acases], shard=50)
+    adist = {"lo_sum_2^32-1": 0, "lo_sum_2^32": 0, "lo_sum_2^33-2": 0, "other": 0, "overflow_panic": 0, "silent_wrap": 0}
+    for a, t in zip(acases, aterms):
+        x, y = int(a["a"]), int(a["b"])
+        lo, hi = (x & 0xffffffff) + (y & 0xffffffff), (x >> 32) + (y >> 32)
+        adist[{2**32 - 1: "lo_sum_2^32-1", 2**32: "lo_sum_2^32", 2**33 - 2: "lo_sum_2^33-2"}.get(lo, "other")] += 1
+        key = c.digest(["agg", a["a"], a["b"]]); seen.add(key); nontrivial.add(key)
+        model = "PANIC" if t == "None" else str(t[1])
+        bad = None
+        if int(a["lo"]) != lo or int(a["hi"]) != hi:
+            bad = "aggregate does not decrypt to the chunk-wise sums"
+        elif x + y < 2**64 and a["dec"] != str(x + y):
+            bad = "decrypt_amount(aggregate(enc x, enc y)) != x + y although x + y fits a u64 and the chunk sums are in the table range"
+        elif model != a["dec"]:
+            bad = "decrypt_amount disagrees with the model chunks_to_u64_checked on the decrypted chunk sums"
+        if a["dec"] == "PANIC":
+            adist["overflow_panic"] += 1
+        elif x + y >= 2**64:
+            adist["silent_wrap"] += 1
+        if bad:
+            ctx.violation({"case": a, "model": model}, "%s: %s" % (bad, json.dumps(a)))
+    ctx.cov["evaluations"] += len(acases)
+    ctx.cov["traces_validated_against_impl"] += len(acases)
+    ctx.notes["aggregate_carry_distribution"] = adist
+
+    # ---- wiring of the statement built by the real gen_enc_trans_proof_info vs the model's (transfer_complete is about the latter)
+    rc, out = c.run_bin(binp, ["wiring", ctx.seed, 0], timeout=300)
+    wcases = [json.loads(l) for l in out.splitlines() if l.startswith("{")]
+    if rc != 0 or len(wcases) < 4:
+        ctx.violation({"layer": "harness run", "output": out[-2000:]}, "wiring harness crashed", no_input=True)
+        return
+    def zl(pairs):
+        return "[" + "; ".join("(%d%%Z, %d%%Z)" % p for p in pairs) + "]"
+    wex = []
+    for w in wcases:
+        a = [(7 + 2 * i, 8 + 2 * i) for i in range(w["na"])]
+        b0 = 7 + 2 * w["na"]
+        sp = [(b0 + 2 * i, b0 + 1 + 2 * i) for i in range(w["ns"])]
+        wex.append("wiring 1%%Z 2%%Z 3%%Z 4%%Z (5%%Z, 6%%Z) %s %s" % (zl(a), zl(sp)))
+    wterms = c.coq_eval(ctx, "wiring", "From Coq Require Import ZArith List. Import ListNotations.\nFrom CB Require Import Crypto.EncTransferExec.", wex, shard=10)
+    for w, t in zip(wcases, wterms):
+        head, e1, e2 = t
+        if list(head) != w["head"] or [list(x) for x in e1] != w["e1"] or [list(x) for x in e2] != w["e2"]:
+            ctx.violation({"case": w, "model": str(t)}, "gen_enc_trans_proof_info wires the statement differently from the model "
+                          "(tokens: 1 g, 2 h, 3 pk_sender, 4 pk_receiver, 5/6 S, then A, then S')")
+    ctx.cov["evaluations"] += len(wcases)
+    ctx.cov["traces_validated_against_impl"] += len(wcases)
+    ctx.notes["statement_wiring"] = {"shapes": [[w["na"], w["ns"]] for w in wcases]}
+
     # in-the-exponent correspondence for encrypt / aggregate / join / decrypt
     ne = 40 if ctx.quick else 1500
     rc, out = c.run_bin(binp, ["encgen", ctx.seed, ne], timeout=1200)
     encs = [json.loads(l) for l in out.splitlines() if l.startswith('{"decs"') or '"k":"enc"' in l]
-    R = 0x73eda753299d7d483339d80809a1d80553bda402fffe5bfeffffffff00000001
     exprs = ["enc_case %d%%Z %s%%N %s%%N %s" % (int(e["sk"], 16), e["x"], e["y"],
              " ".join("%d%%Z" % int(k, 16) for k in e["rand"])) for e in encs]
     terms = c.coq_eval(ctx, "enc", "From Coq Require Import ZArith NArith List. Import ListNotations.\n"
@@ -173,7 +332,7 @@ def run(ctx):
     # crafted-prover attacks (a proof no honest prover produces must be rejected as well)
     rc, out = c.run_bin(binp, ["attack", ctx.seed, 0], timeout=1200)
     atk = [json.loads(l) for l in out.splitlines() if l.startswith("{")]
-    if len(atk) < 2:
+    if len(atk) < 4:
         ctx.violation({"layer": "attack harness", "output": out[-1500:]}, "attack harness failed", no_input=True)
     for a in atk:
         res.append(a)
@@ -186,7 +345,10 @@ def run(ctx):
     ctx.cov["distinct_nontrivial"] = len(nontrivial)
     ctx.cov["rule"] = ("chunk cases: boundary-heavy u64 (0,1,2^k,2^k+-1,MAX,random) x all 7 chunk sizes, chunk lists from the encoder, "
                        "masked random lists up to 70 long and hostile unmasked lists; non-trivial = implementation returned a value (no panic); "
+                       "value chunks: boundary scalars (0,1,2^64-1,2^64,2^128-1,2^192,r-1,r-2,random limbs) x all 7 sizes, encoder output, masked lists of odd lengths, oversized chunks; "
+                       "bsgs: table sizes 1,2,16,65536, x around multiples of m; aggregate with chunk carries (low sums 2^32-1, 2^32, 2^33-2, totals around 2^64); "
                        "oracle cases: encrypt/decrypt, aggregate, transfer and sec-to-pub with balance/amount pairs incl. equal, zero, bal+1; "
+                       "crafted-prover truncated-response forgeries for transfers and sec-to-pub; "
                        "distinct = distinct canonical case hash")
     if proof_broken:
         found = bool(ctx.violations)
